@@ -100,6 +100,9 @@ EncClauseD(n) ==
     [] n = "lib"    -> E.lok = 1 /\ Below(Sweep(E.lc, E.lg), IF E.fmt = 4 THEN MaxCode ELSE MaxCP) = P
     [] n = "lib_hi" -> Above(Sweep(E.lc, E.lg), IF E.fmt = 4 THEN MaxCode ELSE MaxCP) = <<>>
     [] n = "ximg"   -> E.xi = 1 /\ XConforms => E.xok = 1 /\ Sweep(E.xc, E.xg) = P
+    \* the map installed with Font.InstallCMap on a font that already carries other subtables (E.prior: none, a full
+    \* Unicode pair, a BMP pair, Macintosh subtables, a symbol subtable, ...) is what the font's best subtable says
+    [] n = "inst"   -> E.pan = "" => (E.bok = 1 /\ Sweep(E.bc, E.bg) = P)
     [] n = "nowrap" -> TRUE
 \* A size-family map (tight > 0) sits at the boundary: the repository does not promise a minimal encoding, so
 \* a loud refusal (panic) is accepted there; a table with a wrapped length field is not.
@@ -108,7 +111,7 @@ EncClause(n) ==
   ELSE IF E.dom = 1 THEN EncClauseD(n)
   ELSE IF n = "nowrap" THEN E.pan # "" \/ (EncWF /\ Agree4(E.w, P))
   ELSE TRUE
-EncNames == {"map", "wf", "agree", "probe", "lib", "lib_hi", "ximg", "nowrap"}
+EncNames == {"map", "wf", "agree", "probe", "lib", "lib_hi", "ximg", "inst", "nowrap"}
 
 \* ------------------------------------------------------------------ dec
 SpecWF(w, f, lang) == CASE f = 0 -> WF0(w, lang) [] f = 4 -> WF4(w, lang) [] f = 6 -> WF6(w, lang) [] f = 12 -> WF12(w, lang)
